@@ -69,6 +69,7 @@ func runResidueDirected(e *Env) {
 		}
 		residueHeapUnreachable(e, rep)
 		residueHeap(e, rep, false)
+		residueHeapOversize(e, rep)
 	}
 }
 
@@ -328,7 +329,7 @@ func residueAfterClose(e *Env, rep int) {
 // return; after a warm-up, three windows of 1000 such calls each are run and the number of live heap objects is read after two
 // garbage collections at each window's end. A library that keeps something per completed call shows a steady growth of at least
 // one object per call in every window (measured on the pinned tree before repair 4.1 in each of four windows; after it 0.2,
-// 0.1, 0.03, 0.04); the verdict is "violated" only if *both* of the last two windows grow by more than one object per call.
+// 0.1, 0.03, 0.04); the verdict is "violated" only if *both* of the last two windows grow by more than 1.3 objects per call.
 func residueHeapUnreachable(e *Env, rep int) { residueHeap(e, rep, true) }
 
 // residueHeap with unreachable=false: the same heap monitor over completed calls of six kinds on healthy nodes.
@@ -416,7 +417,7 @@ func residueHeap(e *Env, rep int, unreachable bool) {
 	} else {
 		R.Max("max.heap_objects_per_completed_call_on_healthy_nodes(x100)", int64(growth[2]*100))
 	}
-	if growth[1] > 1 && growth[2] > 1 {
+	if growth[1] > 1.3 && growth[2] > 1.3 {
 		R.Violate("heap-grows-with-completed-calls", fmt.Sprintf("completed calls on %s leave something behind: live heap objects after GC grew by %.2f, %.2f and %.2f per call over three windows of %d completed calls", what, growth[0], growth[1], growth[2], per),
 			map[string]any{"node_index": down, "per_window_growth_in_objects_per_call": growth, "goroutines": runtime.NumGoroutine()})
 	}
